@@ -232,6 +232,9 @@ fn build_builder(path: String, field: &Field) -> Result<ArrayBuilder> {
                     entries_field.len()
                 );
             }
+            if entry_field.nullable {
+                fail!(in ctx, "The entries field of a Map must not be nullable");
+            }
             let keys_path = format!(
                 "{path}.{entries_name}.{keys__name}",
                 entries_name = ChildName(&entry_field.name),
